@@ -307,7 +307,28 @@ func scJunk(r *Run) {
 	// length prefixes inside the encrypted certificate block are set (by XOR, it is a stream cipher and the
 	// attacker knows its own plaintext) to values at and around the block length
 	atkLeafLen := map[string]int{}
+	// attackers that follow the protocol with the real client code, except that (a) the certificate blob in
+	// their ClientAuth is of their own making, or (b) they stop after the ClientAck and leave a half-open
+	// handshake behind
+	type atkInfo struct {
+		c       *transport.Client
+		leaf    []byte
+		abandon bool
+	}
+	atkBy := map[string]*atkInfo{}
+	var abandoned []*net.UDPAddr
 	n.Tap = func(d *Dgram) bool {
+		if len(d.Data) > 0 {
+			if ai := atkBy[d.Dst.String()]; ai != nil && ai.leaf != nil && d.Data[0] == 0x02 {
+				if ai.c.VerifSetHandshakeLeaf(ai.leaf) {
+					r.CountFault("junk-own-certificate-blob", 1)
+				}
+			}
+			if ai := atkBy[d.Src.String()]; ai != nil && ai.abandon && d.Data[0] == 0x05 {
+				r.CountFault("junk-handshake-abandoned-after-ack", 1)
+				return false
+			}
+		}
 		ll, ok := atkLeafLen[d.Src.String()]
 		if !ok || len(d.Data) < 16 {
 			return true
@@ -483,11 +504,32 @@ func scJunk(r *Run) {
 				}
 			}
 			aaddr := Addr(byte(120+r.Intn("junk", 100)), 7000+i)
-			if lb, err := cfg.Leaf.Marshal(); err == nil {
-				atkLeafLen[aaddr.String()] = len(lb)
-			}
 			ep := n.Listen("atk", aaddr, srvAddr)
 			c := transport.NewClient(ep, srvAddr, cfg)
+			lb, lerr := cfg.Leaf.Marshal()
+			switch how := r.Intn("junk", 4); {
+			case how == 0 && !hidden && lerr == nil:
+				var blob []byte
+				switch r.Intn("junk", 5) {
+				case 0, 1: // cut anywhere (also exactly between two fields)
+					blob = append([]byte(nil), lb[:r.Intn("junk", len(lb))]...)
+				case 2:
+					blob = append(append([]byte(nil), lb[:r.Intn("junk", len(lb))]...), r.Bytes("junk", 1+r.Intn("junk", 40))...)
+				case 3:
+					blob = append([]byte(nil), lb...)
+					blob[r.Intn("junk", len(blob))] ^= byte(1 + r.Intn("junk", 255))
+				default:
+					blob = r.Bytes("junk", 1+r.Intn("junk", 600))
+				}
+				atkBy[aaddr.String()] = &atkInfo{c: c, leaf: blob}
+			case how == 1 && !hidden && len(abandoned) < 2:
+				atkBy[aaddr.String()] = &atkInfo{c: c, abandon: true}
+				abandoned = append(abandoned, aaddr)
+			default:
+				if lerr == nil {
+					atkLeafLen[aaddr.String()] = len(lb)
+				}
+			}
 			atkClients = append(atkClients, c)
 			r.Go(func() { c.Handshake() })
 			r.CountFault("junk-real-client-prefix", 1)
@@ -529,6 +571,23 @@ func scJunk(r *Run) {
 		r.Obligation(1)
 		if !s.probe(r, fmt.Sprintf("post%d", i)) {
 			r.Violate("C10/established-session-broken", "session %d established before the junk no longer delivers a probe in both directions (mode %d)", i, mode)
+		}
+	}
+	// an address that left a half-open handshake behind (more than the handshake timeout ago) is not
+	// locked out: an honest client behind the same address and port completes its handshake
+	for i, a := range abandoned {
+		if ai := atkBy[a.String()]; ai != nil {
+			ai.c.Close()
+			delete(atkBy, a.String())
+		}
+		again := newHonest(i, a)
+		r.Obligation(1)
+		if err := again.C.Handshake(); err != nil {
+			r.Violate("C10/handshake-after-abandoned-one-fails", "honest handshake from %s failed (mode %d): %v; more than 8 simulated seconds earlier a handshake from that address had been abandoned after its ClientAck (handshake timeout 3 s)", a, mode, err)
+		} else if h := reg.For(again.C, 5*time.Second); h == nil {
+			r.Violate("C10/handshake-after-abandoned-one-fails", "server never offered the honest connection from %s, an address that had abandoned a handshake earlier", a)
+		} else {
+			live = append(live, &liveSess{again, h})
 		}
 	}
 	fresh := newHonest(r.Intn("cfg", 8), Addr(40, 5200))
